@@ -342,6 +342,51 @@ pub fn run(ctx: &Ctx) -> Report {
       report.fail("property", "create-auto-piece-length", case, format!("torrent lists {listed:?} bytes and has piece length {pl:?}; content is {size} bytes, the table gives {}", spec(size)));
     }
   }
+  // a file that vanishes between the search and the hashing (removed when `Hashing` shows on standard error, while the
+  // first, large file is still being read): the run may fail; a torrent that is written has the piece length of the
+  // content it lists
+  if ctx.replay.is_none() {
+    use std::io::Read;
+    let sb = Sandbox::new(&ctx.work, "c15v");
+    sparse(&sb, "content/a.bin", 1 << 25);
+    sb.write("content/z.bin", b"z");
+    let mut child = std::process::Command::new(&ctx.imdl)
+      .args(["torrent", "create", "--input", "content", "--output", "o.torrent"])
+      .current_dir(&sb.root)
+      .env("TERM", "dumb")
+      .stdin(std::process::Stdio::null())
+      .stdout(std::process::Stdio::null())
+      .stderr(std::process::Stdio::piped())
+      .spawn()
+      .expect("run imdl");
+    let mut err = child.stderr.take().unwrap();
+    let mut seen = Vec::new();
+    let mut buf = [0u8; 256];
+    let mut removed = false;
+    while let Ok(n) = err.read(&mut buf) {
+      if n == 0 {
+        break;
+      }
+      seen.extend_from_slice(&buf[..n]);
+      if !removed && String::from_utf8_lossy(&seen).contains("Hashing") {
+        let _ = std::fs::remove_file(sb.path("content/z.bin"));
+        removed = true;
+      }
+    }
+    let status = child.wait().ok();
+    let case = json!({"a_file_vanishes_when_hashing_starts": {"a.bin": 1u64 << 25, "z.bin": 1}});
+    report.case(Some(0xC15_F000_0000));
+    let ok = status.map(|s| s.success()).unwrap_or(false);
+    report.hit(if ok { "create:file-vanished-torrent-written" } else { "create:file-vanished-refused" });
+    if ok {
+      let info = std::fs::read(sb.path("o.torrent")).ok().and_then(|t| bencode::decode(&t).ok()).and_then(|v| v.get("info").cloned());
+      let pl = info.as_ref().and_then(|i| i.get("piece length")).and_then(|p| p.as_int());
+      let total: i128 = info.as_ref().and_then(|i| i.get("files")).and_then(|f| f.as_list()).map(|l| l.iter().filter_map(|f| f.get("length").and_then(|x| x.as_int())).sum()).unwrap_or(-1);
+      if total < 0 || pl != Some(spec(total as u64) as i128) {
+        report.fail("property", "create-auto-piece-length", case, format!("a file vanished during the run; the torrent written lists {total} bytes and has piece length {pl:?}, the table gives {} for that size", if total >= 0 { spec(total as u64) } else { 0 }));
+      }
+    }
+  }
   report.model_requests = model.requests;
   report
 }
